@@ -166,6 +166,40 @@ func c14Case(tier string, seed int64, idx int, scratch string) rt.CaseResult {
 	if r.Stats.ConflictCommit > 0 {
 		garbage["conflict-aborted"] = true
 	}
+	if eo.Mode == dbx.Inline && idx%2 == 1 {
+		// odd beginnings and ends: a Begin whose context is already done (if it gives a handle the
+		// handle is rolled back; if it fails nothing of it may stay behind), and a transaction of a
+		// level outside the four constants that writes, commits and is rolled back for good measure
+		dead, cancel := context.WithCancel(ctxBg)
+		cancel()
+		if tx, err := r.Env.DB.Begin(dead, verif.IsoLevel(1+idx/2%3)); err == nil {
+			tx.Set(ctxBg, txKeys[0], []byte("never committed"))
+			if rerr := tx.Rollback(ctxBg); rerr != nil {
+				c.Violate("rollback-failed after-begin-with-done-context", rerr.Error(), replay)
+				return c
+			}
+		}
+		odd := verif.IsoLevel([]int{4, 7, 255, -1}[idx/2%4])
+		if tx, err := r.Env.DB.Begin(ctxBg, odd); err == nil {
+			v := seqrun.Content(fmt.Sprintf("h%d-odd-level", idx), 64)
+			serr := tx.Set(ctxBg, txKeys[1], v)
+			cerr := tx.Commit(ctxBg)
+			tx.Rollback(ctxBg)
+			if serr == nil && cerr == nil {
+				r.M.Write(refmodel.Autocommit, txKeys[1], string(v), false)
+			}
+			replay["transaction_with_unknown_level"] = fmt.Sprintf("level %d: Set %v, Commit %v", odd, serr, cerr)
+		}
+		// garbage made after that point must be collectable like any other
+		for i := 0; i < 4; i++ {
+			if m := r.Do(len(steps), seqrun.Step{Op: "set", Actor: refmodel.Autocommit, Key: txKeys[i%2], Tag: fmt.Sprintf("h%d-after-odd-%d", idx, i), Len: 30}); m != nil {
+				c.Violate(m.Sig, m.Error(), replay)
+				return c
+			}
+		}
+		garbage["overwritten"] = true
+		c.Count("histories_with_odd_begins_and_ends", 1)
+	}
 	// end every open transaction; through the server the first attempt is made with a context that
 	// is already cancelled (the call does not reach the server): the real end that follows must not
 	// be skipped, or the transaction stays registered and pins the collector's horizon
